@@ -57,7 +57,12 @@ func (r *runner) request(p int, tool string, gateRun bool) {
 	r.cnt[p]++
 	k := r.cnt[p]
 	r.mu.Unlock()
-	base := fmt.Sprintf("p%dr%d%s", p, k, exts[tool])
+	ext := exts[tool]
+	if (p+k)%3 == 0 {
+		// the formatter is chosen by the Format argument, not by the name of the file
+		ext = map[string]string{"go": ".go.tmpl", "dart": "", "ts": ".tsx", "psql": ".pgsql"}[tool]
+	}
+	base := fmt.Sprintf("p%dr%d%s", p, k, ext)
 	file := filepath.Join(r.dir, base)
 	before := []byte("package x // original content\n")
 	os.WriteFile(file, before, 0o644)
